@@ -36,11 +36,12 @@ pub enum Group {
     NonMut,
     FromIdMap,
     FromStore,
+    Filter,
 }
 
 pub const TARGETS: &str = "insert_with | insert | remove | merge | exclude | intersect | subset_of | \
 is_range_covered | contains_clock | find_start | clock_start | clock_end | push_coalesced | all | lift | \
-nonmut | from_idmap | from_store | lift_all";
+nonmut | from_idmap | from_store | filter | lift_all";
 
 /// `(group, target label written into the witness)`.
 pub fn groups_for(target: &str) -> Option<Vec<(Group, String)>> {
@@ -67,10 +68,12 @@ pub fn groups_for(target: &str) -> Option<Vec<(Group, String)>> {
         "nonmut" => own(Group::NonMut),
         "from_idmap" => own(Group::FromIdMap),
         "from_store" => own(Group::FromStore),
+        "filter" => own(Group::Filter),
         "lift_all" => Some(vec![
             (Group::NonMut, "nonmut".to_string()),
             (Group::FromIdMap, "from_idmap".to_string()),
             (Group::FromStore, "from_store".to_string()),
+            (Group::Filter, "filter".to_string()),
         ]),
         "all" => Some(vec![
             (Group::ContainsClock, "contains_clock".to_string()),
@@ -455,6 +458,12 @@ impl Search {
                 }
                 Ok(())
             }
+            Group::Filter => {
+                for ss in self.from_idmap_states() {
+                    self.for_states(label, true, &ss, filter_cases)?;
+                }
+                Ok(())
+            }
             Group::FromStore => {
                 // the script list is its own iterative deepening (smallest
                 // documents first): it runs once per search, in the stage that
@@ -751,6 +760,24 @@ fn from_idmap_cases(w: &mut Worker, label: &str, _is_map: bool, ss: &StateSet, i
     let st = ss.states[idx];
     for method in ["canonical", "desc_singles", "layered"] {
         w.exec(label, true, ss.universe, st, None, Op::FromIdMap { method: method.to_string() })?;
+    }
+    Ok(())
+}
+
+/// Every predicate on every construction order of the map.
+fn filter_cases(w: &mut Worker, label: &str, _is_map: bool, ss: &StateSet, idx: usize) -> Result<(), Stop> {
+    let st = ss.states[idx];
+    for method in ["canonical", "desc_singles", "layered"] {
+        for pred in FILTER_PREDS {
+            w.exec(
+                label,
+                true,
+                ss.universe,
+                st,
+                None,
+                Op::Filter { pred: pred.to_string(), method: method.to_string() },
+            )?;
+        }
     }
     Ok(())
 }
